@@ -695,6 +695,13 @@ def cmp_keys(case, impl, model):
         if impl["alg"] != model["alg"] or (model["bytes"] is not None and impl["bytes"] != model["bytes"]):
             return "decoded key differs: %s/%s vs %s/%s" % (impl["alg"], impl["bytes"], model["alg"], model["bytes"])
         return None
+    if kind == "source":
+        if impl["r"] != model["r"]:
+            if model["r"] == "err":
+                return "Datalog source with a malformed public key is accepted (%s): %r" % (case["which"], case["text"][:200])
+            # a well-formed encoding may still not be a point; the generator only writes genuine keys there
+            return "Datalog source with genuine public keys is refused (%s): %r" % (case["which"], case["text"][:200])
+        return None
     if impl["verified"] != model["expect"]:
         return "verify_signature gives %s where key, message and signature are %s" % (impl["verified"], "genuine" if model["expect"] else "not all genuine")
     return None
@@ -1008,7 +1015,7 @@ def nontrivial(stream, case, impl):
     if stream == "untrusted":
         return case["kind"] != "entry" or impl.get("r") == "ok"
     if stream == "keys":
-        return case["kind"] != "decode" or case.get("mutation") != "none"
+        return case["kind"] not in ("decode",) or case.get("mutation") != "none"
     if stream == "params":
         return len(case["binds"]) >= 1 and '"param"' in json.dumps(case["item"])
     if stream == "termparse":
